@@ -400,7 +400,7 @@ fn run_dec_children(cases: &[DecCase], work: &Path) -> Vec<String> {
         let start = answers.len();
         let mut child = Command::new("sh")
             .arg("-c")
-            .arg(format!("ulimit -v {CHILD_AS_LIMIT_KIB}; exec \"$0\" child c12 dec \"$1\" \"$2\""))
+            .arg(format!("ulimit -v {CHILD_AS_LIMIT_KIB} && exec \"$0\" child c12 dec \"$1\" \"$2\""))
             .arg(&exe)
             .arg(&infile)
             .arg(start.to_string())
